@@ -85,6 +85,9 @@ class PathWorld:
     def on_handler(self, ip, r, handler):
         pass
 
+    def generic_elements(self, ip, it, node):
+        return None
+
     def resolve_name(self, ip, name, node):
         if name in self.functions:
             return FuncRefP(name)
